@@ -9,13 +9,44 @@ sys.path.insert(0, os.path.dirname(os.path.abspath(__file__)))
 from build import *
 
 
+def build_labelled_mdp(case):
+    """QuickTabularMDP from a gen_mdp case whose actions(s) lists the action LABELS in the
+    per-state order case["action_perm"][s] (a permutation of the action ids; the set is the same in
+    every state) and whose labels are case["action_labels"][id] (ints or strings, possibly not in
+    sorted order).  Everything is keyed by label, never by position."""
+    from msdm.core.mdp.quickmdp import QuickTabularMDP
+    from msdm.core.distributions import DictDistribution
+    m = case["mdp"]
+    labels = case.get("action_labels") or list(range(m["nA"]))
+    perm = case.get("action_perm") or [list(a) for a in m["actions"]]
+    trans, rew = {}, {}
+    for k, row in m["trans"].items():
+        s, a = map(int, k.split(","))
+        trans[(s, labels[a])] = DictDistribution({ns: fl(p) for ns, p in row})
+    for k, r in m["reward"].items():
+        s, a, ns = map(int, k.split(","))
+        rew[(s, labels[a], ns)] = fl(r)
+    actions = [tuple(labels[a] for a in perm[s]) for s in range(m["n"])]
+    absorbing = list(m["absorbing"])
+    init = DictDistribution({s: fl(p) for s, p in m["init"]})
+    return QuickTabularMDP(
+        next_state_dist=lambda s, a: trans[(s, a)],
+        reward=lambda s, a, ns: rew.get((s, a, ns), 0.0),
+        actions=lambda s: actions[s],
+        initial_state_dist=init,
+        is_absorbing=lambda s: absorbing[s],
+        discount_rate=fl(m["gamma"]),
+    ), labels
+
+
 def one(case, pl):
     import numpy as np
     from msdm.algorithms.rmax import RMAX, RMAXEventListener
-    mdp = build_mdp(case["mdp"])
-    sl, al = list(mdp.state_list), list(mdp.action_list)
+    mdp, labels = build_labelled_mdp(case)
+    sl, al = list(mdp.state_list), list(mdp.action_list)      # al: LABELS in msdm's order
     sidx = {s: i for i, s in enumerate(sl)}
-    aidx = {a: i for i, a in enumerate(al)}
+    aidx = {a: i for i, a in enumerate(al)}                   # label -> position in action_list
+    label_id = {lab: i for i, lab in enumerate(labels)}       # label -> generator action id
 
     class Recorder(RMAXEventListener):
         def __init__(self):
@@ -42,9 +73,10 @@ def one(case, pl):
     q = res.q_values
     qstates = list(q.keys())
     out = {
-        "state_list": sl, "action_list": al,
+        # action_list is reported as generator action ids in msdm's action_list order
+        "state_list": sl, "action_list": [label_id[a] for a in al], "action_labels_in_order": [str(a) for a in al],
         "q_states": qstates,
-        "q_actions": [list(q[s].keys()) for s in qstates],
+        "q_actions": [sorted(label_id[a] for a in q[s].keys()) for s in qstates],
         "Q": [[fj(q[s][a]) if (s in q and a in q[s]) else None for a in al] for s in sl],
         "pi": [[fj(res.policy.action_dist(s).prob(a)) for a in al] for s in sl],
         "episodes": res.event_listener_results,
